@@ -11,7 +11,7 @@ from mpsa.match import Scope, call_dotted, is_name, is_none, kwarg, method_of, r
 from mpsa.report import Checker
 
 from . import server
-from .common import SERVER, SERVLET, WORKER, benign_call, build_cfg, make_fallible
+from .common import SERVER, SERVLET, WORKER, benign_call, build_cfg, iterates_all_of, make_fallible
 
 SIMPLE = ('ProcessServlet', 'ThreadServlet')
 COMPOUND = ('SequentialServlet', 'EnsembleServlet', 'SwitchServlet')
@@ -121,7 +121,7 @@ def check_rollback(ck: Checker, rid: str, mod):
             ck.need(t is not None, f'{f.key}: stopper `{norm_text(u)}` not resolvable')
             body = [x for g in self_closure(t) for x in walk_shallow_func(g.node)]
             has_sentinel = any(isinstance(x, ast.Call) and method_of(x)[1] == 'put' and x.args and is_none(x.args[0]) for x in body)
-            joins_all = any(isinstance(x, ast.For) and dotted(x.iter) == 'self._workers' and any(isinstance(y, ast.Call) and method_of(y)[1] == 'join' and is_name(method_of(y)[0], x.target.id if isinstance(x.target, ast.Name) else '') for y in ast.walk(x)) for x in body)
+            joins_all = any(isinstance(x, ast.For) and iterates_all_of(x.iter, 'self._workers') and any(isinstance(y, ast.Call) and method_of(y)[1] == 'join' and is_name(method_of(y)[0], x.target.id if isinstance(x.target, ast.Name) else '') for y in ast.walk(x)) for x in body)
             ck.ob(rid, t, (t.node.lineno, f'{cname}.{t.name}'), has_sentinel and joins_all, 'the rollback helper sends the end sentinel and joins every worker in `self._workers`' if has_sentinel and joins_all else 'the rollback helper does not both send the sentinel and join every started worker')
     # server: the servlet is started before any helper thread
     f = ck.repo.func(SERVER, '_enter_server')
@@ -207,9 +207,9 @@ def check_exit_order(ck: Checker, rid: str, s: server.Srv):
     ck.analysed_func(f, cfg)
     stop = [n for n in cfg.nodes if header_expr(n) is not None and any(dotted(c.func) == 'self.servlet.stop' for c in calls_in(header_expr(n)))]
     ck.need(stop, f'{f.key}: servlet.stop() not called')
-    ojoin = {n.id for n in cfg.nodes if header_expr(n) is not None and any(method_of(c)[1] == 'join' and dotted(method_of(c)[0]) == 'self._onboard_thread' for c in calls_in(header_expr(n)))}
-    oput = {n.id for n in cfg.nodes if header_expr(n) is not None and any(method_of(c)[1] == 'put' and dotted(method_of(c)[0]) == 'self._input_buffer' and c.args and is_none(c.args[0]) for c in calls_in(header_expr(n)))}
-    tests = [n for n in cfg.nodes if n.kind == 'test' and isinstance(n.ast, ast.Compare) and dotted(n.ast.left) == 'self._onboard_thread' and is_none(n.ast.comparators[0])]
+    ojoin = {n.id for n in cfg.nodes if header_expr(n) is not None and any(method_of(c)[1] == 'join' and (method_of(c)[0] is not None and sc.canon(method_of(c)[0]) == 'self._onboard_thread') for c in calls_in(header_expr(n)))}
+    oput = {n.id for n in cfg.nodes if header_expr(n) is not None and any(method_of(c)[1] == 'put' and (method_of(c)[0] is not None and sc.canon(method_of(c)[0]) == 'self._input_buffer') and c.args and is_none(c.args[0]) for c in calls_in(header_expr(n)))}
+    tests = [n for n in cfg.nodes if n.kind == 'test' and isinstance(n.ast, ast.Compare) and sc.canon(n.ast.left) == 'self._onboard_thread' and is_none(n.ast.comparators[0])]
     probs = []
     if not ojoin or not oput:
         probs.append('the onboarding thread is not ended (put(None)) and joined in the exit')
@@ -229,7 +229,7 @@ def check_exit_order(ck: Checker, rid: str, s: server.Srv):
             p2 = path_avoiding(cfg, [cfg.entry], {j}, avoid=oput)
             if p2 is not None:
                 probs.append('the onboarding thread is joined before its end marker was put')
-    gj = {n.id for n in cfg.nodes if header_expr(n) is not None and any(method_of(c)[1] == 'join' and dotted(method_of(c)[0]) == 'self._gather_thread' for c in calls_in(header_expr(n)))}
+    gj = {n.id for n in cfg.nodes if header_expr(n) is not None and any(method_of(c)[1] == 'join' and (method_of(c)[0] is not None and sc.canon(method_of(c)[0]) == 'self._gather_thread') for c in calls_in(header_expr(n)))}
     if gj:
         p3 = path_avoiding(cfg, [cfg.entry], gj, avoid={stop[0].id})
         if p3 is not None:
@@ -271,9 +271,11 @@ def _joined_attrs(funcs):
                 r, me = method_of(n)
                 if me == 'join' and r is not None and isinstance(r, ast.Attribute) and is_name(r.value, 'self'):
                     out.add(('attr', r.attr))
-            if isinstance(n, ast.For) and isinstance(n.iter, ast.Attribute) and is_name(n.iter.value, 'self') and isinstance(n.target, ast.Name):
-                if any(isinstance(y, ast.Call) and method_of(y)[1] == 'join' and is_name(method_of(y)[0], n.target.id) for b in n.body for y in ast.walk(b)):
-                    out.add(('list', n.iter.attr))
+            if isinstance(n, ast.For) and isinstance(n.target, ast.Name):
+                # `for w in self.X` / `list(self.X)` / `self.X[:]` / `reversed(self.X)` ...: every element is visited
+                attrs = {x.attr for x in ast.walk(n.iter) if isinstance(x, ast.Attribute) and is_name(x.value, 'self') and iterates_all_of(n.iter, f'self.{x.attr}')}
+                if attrs and any(isinstance(y, ast.Call) and method_of(y)[1] == 'join' and is_name(method_of(y)[0], n.target.id) for b in n.body for y in ast.walk(b)):
+                    out.update(('list', a_) for a_ in attrs)
     return out
 
 
